@@ -404,3 +404,51 @@ def apply_to_module(module_ast, ref_module):
                 n.names = [mapping.get(x, x) for x in n.names]
         changed[qual] = mapping
     return changed
+
+
+def minmax_module(module_ast):
+    """ The smaller / larger of two values is written min(a, b) / max(a, b): the spellings
+    ``a if a <= b else b``  and  ``if b < a: t = b / else: t = a``  are brought to that form (same value for every input
+    for which the comparison is defined; for equal values either operand is the same value).  Returns the number of
+    rewrites; the caller re-computes parent links. """
+    def as_minmax(test, body, orelse):
+        if not (isinstance(test, ast.Compare) and len(test.ops) == 1 and isinstance(test.ops[0], (ast.Lt, ast.LtE, ast.Gt, ast.GtE))):
+            return None
+        (l, r) = (ast.dump(test.left), ast.dump(test.comparators[0]))
+        (b, o) = (ast.dump(body), ast.dump(orelse))
+        if l == r or {b, o} != {l, r}:
+            return None
+        less = isinstance(test.ops[0], (ast.Lt, ast.LtE))
+        # body is the left operand of "<": the smaller one is chosen
+        fn = 'min' if (b == l) == less else 'max'
+        return ast.Call(func=ast.Name(id=fn, ctx=ast.Load()), args=[test.left, test.comparators[0]], keywords=[])
+
+    n = 0
+
+    class T(ast.NodeTransformer):
+        def visit_IfExp(self, node):
+            nonlocal n
+            self.generic_visit(node)
+            got = as_minmax(node.test, node.body, node.orelse)
+            if got is not None:
+                n += 1
+                return ast.copy_location(got, node)
+            return node
+
+        def visit_If(self, node):
+            nonlocal n
+            self.generic_visit(node)
+            if len(node.body) == 1 and len(node.orelse) == 1 and isinstance(node.body[0], ast.Assign) and isinstance(node.orelse[0], ast.Assign) \
+                    and len(node.body[0].targets) == 1 and len(node.orelse[0].targets) == 1 and ast.dump(node.body[0].targets[0]) == ast.dump(node.orelse[0].targets[0]):
+                got = as_minmax(node.test, node.body[0].value, node.orelse[0].value)
+                if got is not None:
+                    n += 1
+                    new = ast.Assign(targets=[node.body[0].targets[0]], value=got)
+                    ast.copy_location(new, node)
+                    ast.copy_location(got, node)
+                    return new
+            return node
+    T().visit(module_ast)
+    if n:
+        ast.fix_missing_locations(module_ast)
+    return n
